@@ -367,3 +367,82 @@ func validDenom(d string) bool {
 	}
 	return true
 }
+
+// ---------------------------------------------------------------- DecCoins (vector of 10^18-scaled amounts)
+
+func (it *Interp) toDecCoins(v Value) *DecCoinsV {
+	it.checkPoison(v)
+	switch x := v.(type) {
+	case *DecCoinsV:
+		return x
+	case *SliceV:
+		c := &DecCoinsV{Amt: map[string]Value{}}
+		if x.Len == 0 {
+			return c
+		}
+		for _, e := range x.Arr.V.(*ArrayV).Elems[x.Off : x.Off+x.Len] {
+			s := e.(*StructV)
+			d := s.Fields[0].(string)
+			c.Amt[d] = mkAdd(decAmt(c, d), s.Fields[1].(DecV).V)
+		}
+		return c
+	}
+	panic(unsupported(fmt.Sprintf("expected sdk.DecCoins, got %T at %s", v, it.where())))
+}
+
+func decAmt(c *DecCoinsV, d string) Value {
+	if v, ok := c.Amt[d]; ok {
+		return v
+	}
+	return big.NewInt(0)
+}
+
+func registerDecCoins(P *Program) {
+	const S = sdkPkg + "."
+	const C = "(" + sdkPkg + ".DecCoins)."
+	P.reg(S+"NewDecCoinsFromCoins", func(it *Interp, a []Value) Value {
+		x := it.toCoins(a[0])
+		r := &DecCoinsV{Amt: map[string]Value{}}
+		for d, v := range x.Amt {
+			r.Amt[d] = mkMul(v, pow10_18)
+		}
+		return r
+	})
+	P.reg(C+"Add", func(it *Interp, a []Value) Value {
+		x, y := it.toDecCoins(a[0]), it.toDecCoins(a[1])
+		r := &DecCoinsV{Amt: map[string]Value{}}
+		for d, v := range x.Amt {
+			r.Amt[d] = v
+		}
+		for d, v := range y.Amt {
+			r.Amt[d] = it.overflowCheck(it.nameVal(mkAdd(decAmt(r, d), v)), maxDec315, 315, "Int overflow")
+		}
+		return r
+	})
+	P.reg(C+"AmountOf", func(it *Interp, a []Value) Value { return DecV{V: decAmt(it.toDecCoins(a[0]), a[1].(string))} })
+	P.reg(C+"IsZero", func(it *Interp, a []Value) Value {
+		x := it.toDecCoins(a[0])
+		var cs []Value
+		for _, d := range sortedKeys(x.Amt) {
+			cs = append(cs, mkCmp("=", x.Amt[d], zero0))
+		}
+		return mkAnd(cs...)
+	})
+	P.reg(C+"String", func(it *Interp, a []Value) Value { return symStrMark + "deccoins" })
+	P.reg("zzverif.AnyDecCoins", func(it *Interp, a []Value) Value {
+		tag := tagOf(a[0])
+		bits := int(asBig(a[1]).Int64())
+		r := &DecCoinsV{Amt: map[string]Value{}}
+		for _, d := range strSlice(it, a[2]) {
+			r.Amt[d] = it.anyRange(tag+"."+d, big.NewInt(0), new(big.Int).Sub(pow2(bits), big.NewInt(1)), "dec")
+		}
+		return r
+	})
+	P.reg("zzverif.ObserveDecCoins", func(it *Interp, a []Value) Value {
+		x := it.toDecCoins(a[1])
+		for _, d := range sortedKeys(x.Amt) {
+			it.observe(tagOf(a[0])+"."+d, x.Amt[d])
+		}
+		return nil
+	})
+}
